@@ -603,7 +603,78 @@ func TestVerif_C15(t *testing.T) {
 		wr.Wait()
 		rep.Eval(1)
 	}
+	// (g) one deletion request that names several hundred stored notes of its author (a single
+	// insertion, however long it takes) while other goroutines list that author's events: no
+	// listing may show the request together with a note it names, and once the request is
+	// listed every later listing shows it alone.
+	for round := 0; round < vk.N(12, 150) && rep.Violations() < 3; round++ {
+		r := vk.RNG("C15/bigdel", round)
+		c := mocrelay.NewEventCache(5000)
+		author := vk.FakePub(1700 + r.IntN(3))
+		n := 130 + r.IntN(400)
+		k := &mocrelay.Event{Kind: 5, Pubkey: author, CreatedAt: 9000, Content: fmt.Sprintf("big deletion %d", round), Tags: []mocrelay.Tag{}}
+		for i := 0; i < n; i++ {
+			e := vk.Seal(&mocrelay.Event{Kind: 1, Pubkey: author, CreatedAt: int64(1000 + i), Content: fmt.Sprintf("note %d of round %d", i, round), Tags: []mocrelay.Tag{}})
+			c.Add(e)
+			k.Tags = append(k.Tags, mocrelay.Tag{"e", e.ID})
+		}
+		for i := 0; i < 20; i++ { // bystanders of another author
+			c.Add(vk.Seal(&mocrelay.Event{Kind: 1, Pubkey: vk.FakePub(1710), CreatedAt: int64(1000 + i), Content: fmt.Sprintf("bystander %d of round %d", i, round), Tags: []mocrelay.Tag{}}))
+		}
+		vk.Seal(k)
+		var done atomic.Bool
+		var wg sync.WaitGroup
+		for g := 0; g < 3; g++ {
+			wg.Add(1)
+			go func(g int) {
+				defer wg.Done()
+				fs := []*mocrelay.ReqFilter{{Authors: []string{author}}}
+				if g == 1 {
+					fs = []*mocrelay.ReqFilter{{}}
+				}
+				sawK := false
+				for last := false; ; {
+					if done.Load() {
+						last = true // one more listing after the insertion returned
+					}
+					L := c.Find(fs)
+					rep.Count("listings_during_a_big_deletion", 1)
+					hasK, targets := false, 0
+					for _, x := range L {
+						if x.ID == k.ID {
+							hasK = true
+						} else if x.Pubkey == author {
+							targets++
+						}
+					}
+					if hasK && targets > 0 {
+						rep.Violation("concurrent/big-deletion/request-listed-with-its-targets", fmt.Sprintf("a listing taken while a deletion request naming %d notes was being inserted shows the request together with %d of the notes it names", n, targets),
+							map[string]any{"targets_named": n, "listed": len(L)})
+						return
+					}
+					if sawK && !hasK {
+						rep.Violation("concurrent/big-deletion/request-vanished", "a listing shows the deletion request and a later one does not", map[string]any{"targets_named": n})
+						return
+					}
+					sawK = sawK || hasK
+					if last {
+						if !hasK || targets > 0 {
+							rep.Violation("concurrent/big-deletion/outcome", fmt.Sprintf("after the insertion returned the listing has request=%v and %d of its targets", hasK, targets), map[string]any{"targets_named": n})
+						}
+						return
+					}
+				}
+			}(g)
+		}
+		time.Sleep(time.Duration(r.IntN(300)) * time.Microsecond)
+		c.Add(k)
+		done.Store(true)
+		wg.Wait()
+		rep.Eval(1)
+		rep.Count("big_deletion_rounds", 1)
+	}
 	pc.report(rep)
+	rep.Require(rep.Counter("big_deletion_rounds") >= 10, "big deletion rounds")
 	rep.Require(rep.Counter("listings_during_restore") > 10, "listings during restore")
 	rep.Require(rep.Counter("dumps_during_writes") >= 30 && rep.Counter("dump_scenario_deletions") > 100 && rep.Counter("dump_scenario_replacements") > 100, "dumps during writes")
 	rep.Require(rep.Counter("router_sessions") > 500, "router sessions")
